@@ -143,3 +143,113 @@ impl DynDriver for Tape {
         None
     }
 }
+
+// ---------------------------------------------------------------- logging wrapper (C37 `enumrun`)
+
+/// A driver that forwards every request to `inner` (bolero's *real* exhaustive driver) and logs the
+/// requested range and the answer in the format of [`Tape`]; `tape()` turns the log of one execution
+/// into the choice tape (`v - lo` per call) on which the model must reproduce that execution.
+pub struct LogDrv<D: DynDriver> {
+    pub inner: D,
+    pub log: Vec<String>,
+    pub tape: Vec<u64>,
+}
+
+impl<D: DynDriver> LogDrv<D> {
+    pub fn new(inner: D) -> Self {
+        LogDrv { inner, log: vec![], tape: vec![] }
+    }
+    pub fn reset(&mut self) {
+        self.log.clear();
+        self.tape.clear();
+    }
+    fn note(&mut self, lo: Option<u128>, hi: Option<u128>, v: Option<u128>) {
+        match (lo, hi, v) {
+            (Some(lo), Some(hi), Some(v)) => {
+                self.log.push(format!("u{lo}:{hi}:{v}"));
+                self.tape.push(v.saturating_sub(lo) as u64);
+            }
+            (Some(lo), Some(hi), None) => self.log.push(format!("u{lo}:{hi}:none")),
+            _ => self.log.push("u:empty".to_string()),
+        }
+    }
+}
+
+macro_rules! logged_unsigned {
+    ($name:ident, $ty:ty) => {
+        fn $name(&mut self, min: Bound<&$ty>, max: Bound<&$ty>) -> Option<$ty> {
+            let r = self.inner.$name(min, max);
+            let lo = match min {
+                Bound::Included(x) => Some(*x as u128),
+                Bound::Excluded(x) => Some(*x as u128 + 1),
+                Bound::Unbounded => Some(0),
+            };
+            let hi = match max {
+                Bound::Included(x) => Some(*x as u128),
+                Bound::Excluded(x) => (*x as u128).checked_sub(1),
+                Bound::Unbounded => Some(<$ty>::MAX as u128),
+            };
+            self.note(lo, hi, r.map(|v| v as u128));
+            r
+        }
+    };
+}
+macro_rules! logged_other {
+    ($name:ident, $ty:ty) => {
+        fn $name(&mut self, min: Bound<&$ty>, max: Bound<&$ty>) -> Option<$ty> {
+            self.log.push(concat!("other-", stringify!($name)).to_string());
+            self.inner.$name(min, max)
+        }
+    };
+}
+
+impl<D: DynDriver> DynDriver for LogDrv<D> {
+    fn depth(&self) -> usize {
+        self.inner.depth()
+    }
+    fn set_depth(&mut self, depth: usize) {
+        self.inner.set_depth(depth)
+    }
+    fn max_depth(&self) -> usize {
+        self.inner.max_depth()
+    }
+    fn gen_variant(&mut self, variants: usize, base_case: usize) -> Option<usize> {
+        let r = self.inner.gen_variant(variants, base_case);
+        self.note(Some(0), (variants as u128).checked_sub(1), r.map(|v| v as u128));
+        r
+    }
+    logged_unsigned!(gen_u8, u8);
+    logged_unsigned!(gen_u16, u16);
+    logged_unsigned!(gen_u32, u32);
+    logged_unsigned!(gen_u64, u64);
+    logged_unsigned!(gen_usize, usize);
+    logged_other!(gen_u128, u128);
+    logged_other!(gen_i8, i8);
+    logged_other!(gen_i16, i16);
+    logged_other!(gen_i32, i32);
+    logged_other!(gen_i64, i64);
+    logged_other!(gen_i128, i128);
+    logged_other!(gen_isize, isize);
+    logged_other!(gen_f32, f32);
+    logged_other!(gen_f64, f64);
+    logged_other!(gen_char, char);
+    fn gen_bool(&mut self, probability: Option<f32>) -> Option<bool> {
+        let r = self.inner.gen_bool(probability);
+        match r {
+            Some(v) => {
+                self.log.push(format!("b{}", v as u8));
+                self.tape.push(v as u64);
+            }
+            None => self.log.push("b:none".to_string()),
+        }
+        r
+    }
+    fn gen_from_bytes(
+        &mut self,
+        hint: &mut dyn FnMut() -> (usize, Option<usize>),
+        produce: &mut dyn FnMut(&[u8]) -> Option<usize>,
+    ) -> Option<()> {
+        self.log.push("other-gen_from_bytes".to_string());
+        self.inner.gen_from_bytes(hint, produce)
+    }
+}
